@@ -438,10 +438,10 @@ def differential(res, prop, sub, cases, to_coq, requires, mismatch_fn, model_fn,
     terms = [(i, to_coq(c), cobs(canon(c, o["rows"]) if canon else o["rows"])) for i, (c, o) in enumerate(zip(cases, obs))]
     okc, bad, clog = run_coq_cases(prop, requires, mismatch_fn, terms, shards=shards, tag=tag)
     res.obligation(okc, "model evaluation (coqc cases): " + clog[-1500:])
-    res.obligation(not bad, "model/implementation correspondence on %d cases (mismatches: %s)" % (len(cases), bad[:10]))
-    res.extra["traces_validated_against_impl"] = len(cases) - len(bad)
     failing_idx = {i for (i, _) in failing}
     pure_mismatch = [i for i in bad if i not in failing_idx]
+    res.obligation(not pure_mismatch, "model/implementation correspondence on %d cases (mismatches outside oracle failures: %s)" % (len(cases), pure_mismatch[:10]))
+    res.extra["traces_validated_against_impl"] = res.extra.get("traces_validated_against_impl", 0) + len(cases) - len(bad)
     if not okc:
         res.violation({"property": prop, "broken": "model evaluation failed", "log": clog[-4000:]}, found_input=False)
     for i in pure_mismatch[:3]:
